@@ -20,7 +20,7 @@ META = {
     'technique': 'Coq proof (memo invariant by induction over operation histories, transparency by simulation against the '
                  'cache-free pure outcome) on a hand-written Gallina state model + differential correspondence on generated histories',
     'design_ref': 'DESIGN.md section 4 C06',
-    'theorems': ['C06_inv_init', 'C06_inv_step', 'C06_inv_run', 'C06_transparent', 'C06_pure_outcome',
+    'theorems': ['C06_inv_init', 'C06_inv_step', 'C06_inv_run', 'C06_transparent', 'C06_transparent_needed', 'C06_needed_example', 'C06_pure_outcome',
                  'C06_strict_key_every_time', 'C06_safe_example', 'C06_inv_step_example', 'C06_strict_example',
                  'C06_refuted_subclass_after_use', 'C06_refuted_base_used_first', 'C06_refuted_shared_nested',
                  'C06_refuted_nested_alone_first'],
@@ -183,8 +183,10 @@ class Sim:
         self.fn = {'load': set(), 'dump': set()}
         self.gov = {}        # cid -> [(effective meta, op index)]
         self.f10_dirty = set()
-        self.tainted40 = {}  # cid -> index of the BindMeta that rewrote its Meta object
-        self.tainted11 = {}  # cid -> index of the definition that left the initialiser it picked up
+        self.tainted40 = {}  # cid -> indices of the BindMeta operations (addressed to another class) that rewrote its Meta object
+        self.tainted11 = {}  # cid -> indices of the definitions that left the foreign initialiser it picked up
+        self.objt = {}       # Meta object -> indices of foreign definitions whose settings were merged into it
+        self.taint_log = []  # per operation: (F11 taints, F40 taints) of every class at that time
 
     @staticmethod
     def m_and(a, b):
@@ -241,18 +243,34 @@ class Sim:
     def _bind_default(self, c, r, legit):
         if r is None:
             return
+        foreign = set() if legit else {self.def_idx.get(r[1], self.i)}
+        foreign |= self.objt.get(r, set())
         if self.ref.get(c) is not None:
             if self.ref[c] != r:
-                sharers = [x for x in self.decl if x != c and self.ref.get(x) == self.ref[c]]
-                for x in sharers:
-                    self.tainted40.setdefault(x, self.i)
+                for x in self.decl:
+                    if x != c and self.ref.get(x) == self.ref[c]:
+                        self.tainted40.setdefault(x, set()).add(self.i)
+                if foreign:
+                    self.objt.setdefault(self.ref[c], set()).update(foreign)
             self.mobj[self.ref[c]] = self.m_and(self.mobj[self.ref[c]], self.mobj[r])
         else:
             self.ref[c] = r
-        if not legit:
-            self.tainted11.setdefault(c, self.def_idx.get(r[1], self.i))
+            if not legit:
+                self.tainted11.setdefault(c, set()).update(foreign)
+
+    def taints11(self, c):
+        return self.tainted11.get(c, set()) | self.objt.get(self.ref.get(c), set())
+
+    def snapshot(self):
+        self.taint_log.append(({c: self.taints11(c) for c in self.decl if self.taints11(c)},
+                               {c: set(v) for c, v in self.tainted40.items()}))
 
     def step(self, o):
+        regions = self._step(o)
+        self.snapshot()
+        return regions
+
+    def _step(self, o):
         self.i += 1
         k = o['op']
         regions = {}
@@ -280,7 +298,7 @@ class Sim:
             else:
                 sharers = [x for x in self.decl if x != c and self.ref.get(x) == r]
                 for x in sharers:
-                    self.tainted40.setdefault(x, self.i)
+                    self.tainted40.setdefault(x, set()).add(self.i)
                 if sharers:
                     regions['F40'] = {self.i}
                 self.mobj[r] = self.m_and(self.mobj[r], o['meta'])
@@ -315,9 +333,9 @@ class Sim:
                 regions.setdefault('F10', set()).update(j for g, j in self.gov.get(n, []))
             self.gov.setdefault(n, []).append((e, self.i))
             if n in self.tainted40:
-                regions.setdefault('F40', set()).add(self.tainted40[n])
-            if n in self.tainted11:
-                regions.setdefault('F11', set()).add(self.tainted11[n])
+                regions.setdefault('F40', set()).update(self.tainted40[n])
+            if self.taints11(n):
+                regions.setdefault('F11', set()).update(self.taints11(n))
         return regions
 
 
@@ -328,6 +346,13 @@ def op_class(o):
 def regions_of(history):
     sim = Sim()
     return [sim.step(o) for o in history]
+
+
+def analyse(history):
+    """(regions per operation, taint snapshot per operation)"""
+    sim = Sim()
+    regs = [sim.step(o) for o in history]
+    return regs, sim.taint_log
 
 
 def needed_defs(history, i):
